@@ -517,22 +517,8 @@ impl Mat4 {
     /// Panics if `slice` is less than 16 elements long.
     #[inline]
     pub fn write_cols_to_slice(self, slice: &mut [f32]) {
-        slice[0] = self.x_axis.x;
-        slice[1] = self.x_axis.y;
-        slice[2] = self.x_axis.z;
-        slice[3] = self.x_axis.w;
-        slice[4] = self.y_axis.x;
-        slice[5] = self.y_axis.y;
-        slice[6] = self.y_axis.z;
-        slice[7] = self.y_axis.w;
-        slice[8] = self.z_axis.x;
-        slice[9] = self.z_axis.y;
-        slice[10] = self.z_axis.z;
-        slice[11] = self.z_axis.w;
-        slice[12] = self.w_axis.x;
-        slice[13] = self.w_axis.y;
-        slice[14] = self.w_axis.z;
-        slice[15] = self.w_axis.w;
+        // the length is checked before anything is written
+        slice[..16].copy_from_slice(&self.to_cols_array());
     }
 
     /// Returns the matrix column for the given `index`.
